@@ -80,7 +80,7 @@ func run(sc scenario, prefix []int) (r result) {
 			} else {
 				_, err = i.Eval(sc.Src)
 			}
-		case "host-pure", "host-inc", "host-pair":
+		case "host-pure", "host-inc", "host-pair", "host-apply":
 			i := newInterp(&buf)
 			if _, err = i.Eval(tmpl.HostFuncs); err != nil {
 				return
@@ -88,7 +88,7 @@ func run(sc scenario, prefix []int) (r result) {
 			res := make([]string, sc.N)
 			var wg vsched.WaitGroup
 			var fv reflect.Value
-			name := map[string]string{"host-pure": "Sum", "host-inc": "Inc", "host-pair": "Pair"}[sc.Kind]
+			name := map[string]string{"host-pure": "Sum", "host-inc": "Inc", "host-pair": "Pair", "host-apply": "Apply"}[sc.Kind]
 			if fv, err = i.Eval(name); err != nil {
 				return
 			}
@@ -107,6 +107,9 @@ func run(sc scenario, prefix []int) (r result) {
 					case "host-pair":
 						out := fv.Call([]reflect.Value{reflect.ValueOf(k + 1)})
 						res[k] = fmt.Sprint(out[0].Interface(), out[1].Interface())
+					case "host-apply":
+						out := fv.Call([]reflect.Value{reflect.ValueOf(k + 1)})
+						res[k] = fmt.Sprint(out[0].Interface())
 					}
 				})
 			}
@@ -279,6 +282,11 @@ func scenarios() []scenario {
 		}
 		scs = append(scs, scenario{Name: fmt.Sprintf("T6b host threads=%d call exported mutex-protected Inc", n), Kind: "host-inc", N: n, Want: strings.Join(is, "|") + "\n"})
 		scs = append(scs, scenario{Name: fmt.Sprintf("T6c host threads=%d call exported function building a slice", n), Kind: "host-pair", N: n, Want: strings.Join(ps, "|") + "\n"})
+		var as []string
+		for k := 1; k <= n; k++ {
+			as = append(as, fmt.Sprint(3*k*k+3))
+		}
+		scs = append(scs, scenario{Name: fmt.Sprintf("T6d host threads=%d call exported function that calls a closure variable", n), Kind: "host-apply", N: n, Want: strings.Join(as, "|") + "\n"})
 	}
 	scs = append(scs, scenario{Name: "T7 two independent interpreters", Kind: "two-interps", Src: "package main\n\nimport . \"verif/engine/twin/h\"\n\nfunc main() {\n\ts := BASE\n\tc := make(chan int, 1)\n\tfor i := 0; i < 3; i++ {\n\t\tc <- s + i\n\t\ts = <-c\n\t}\n\tShow(s)\n}\n", Want: "4\n103\n"})
 	return scs
